@@ -30,7 +30,11 @@ LEVEL_TEXT = ("Lean: every conversion plan is an affine map m -> A*m + B whose c
               "whatever prefixes, after any public unit operations, returns (A*(prefix(source)*m) + B)/prefix(target) with (A, B) "
               "the affine map of the pure path between the two scale units (convert_flat_single), and the kernel checks those 16 maps "
               "on the regenerated graph against the exact definitions within 1e-12 (flat_temperature_ok; "
-              "temperature_conversions_all_prefixes; inhabited by 25 kilo-celsius -> milli-fahrenheit). "
+              "temperature_conversions_all_prefixes; inhabited by 25 kilo-celsius -> milli-fahrenheit); the state a conversion leaves is "
+              "again a state of the shipped graph, so conversions chain: there and back returns the magnitude within 1e-12*|m| + "
+              "1e-9/prefix for every pair of scales, all prefixes, all magnitudes, all states (temperature_round_trip; the composed "
+              "coefficients are checked by the kernel, round_trips_ok), and going through a third scale gives what the direct "
+              "conversion gives (temperature_route_independent, routes_ok: all 64 triples). "
               "The model planner is tied to the code by differential execution over all pairs x registered prefixes x magnitudes.")
 LEVEL_NOTE = ("Trusted: Lean kernel + Mathlib field/order lemmas; translators gen_init/gen_graph. The closed form for an ARBITRARY "
               "prefix is now a theorem about the model of the planner (single-factor units of a flat dimension), instantiated on the "
@@ -46,6 +50,10 @@ THEOREMS = [
     "Measured.findPath_flat", "Measured.convert_flat_single", "Measured.flat_conversion_state_free",
     "Measured.Obligations.FlatTemp.flat_temperature_ok", "Measured.Obligations.FlatTemp.temperature_conversions_all_prefixes",
     "Measured.Obligations.FlatTemp.temperature_inhabited",
+    "Measured.Obligations.FlatTemp.temperature_conversion_core", "Measured.Obligations.FlatTemp.round_trips_ok",
+    "Measured.Obligations.FlatTemp.temperature_round_trip",
+    "Measured.Obligations.FlatTemp.routes_ok", "Measured.Obligations.FlatTemp.temperature_route_independent",
+    "Measured.Obligations.FlatTemp.temperature_sub",
 ]
 # floats/Decimals vs the exact model: an affine conversion subtracts numbers of the size of the
 # offsets (273.15, 459.67), so rounding is amplified by the cancellation ratio; the generator keeps
